@@ -201,5 +201,46 @@ func genWiring() {
 	}
 	g.line("(* every X.ExpiresIn(d) call with the statement before it (\"restamped\" = X.CreatedAtNow()) *)")
 	g.line("Definition expires_in_sites : list (list N) := %s.", coqStrList(expSites))
+	// code_challenge_switch: the switch of GenerateCodeChallenge (pkg/encryption/utils.go) as "label => first statement",
+	// with the two method constants resolved: which method strings derive what, and that everything else is an error
+	const ccRel = "pkg/encryption/utils.go"
+	var sw []string
+	if fd := funcDecl(ccRel, "GenerateCodeChallenge"); fd != nil && fd.Body != nil {
+		ctxt := func(n ast.Node) string { return strings.Join(strings.Fields(exprText(ccRel, n)), " ") }
+		for _, st := range fd.Body.List {
+			ss, ok := st.(*ast.SwitchStmt)
+			if !ok {
+				sw = append(sw, "<statement outside the switch> "+ctxt(st))
+				continue
+			}
+			sw = append(sw, "switch "+ctxt(ss.Tag))
+			for _, cc := range ss.Body.List {
+				cl := cc.(*ast.CaseClause)
+				label := "default"
+				if len(cl.List) > 0 {
+					var ls []string
+					for _, e := range cl.List {
+						if id, ok := e.(*ast.Ident); ok {
+							if v := constDecl(ccRel, id.Name); v != nil {
+								if sv, ok := evalString(v); ok {
+									ls = append(ls, strconv.Quote(sv))
+									continue
+								}
+							}
+						}
+						ls = append(ls, ctxt(e))
+					}
+					label = strings.Join(ls, ",")
+				}
+				first := "<empty>"
+				if len(cl.Body) > 0 {
+					first = ctxt(cl.Body[0])
+				}
+				sw = append(sw, label+" => "+first)
+			}
+		}
+	}
+	g.line("(* GenerateCodeChallenge: switch tag, then \"label => first statement\" per case *)")
+	g.line("Definition code_challenge_switch : list (list N) := %s.", coqStrList(sw))
 	g.write("Wiring.v")
 }
